@@ -115,6 +115,24 @@ def run_case(case: Dict) -> CaseResult:
             # the same entry judged from the raw state of the guarded components (the rules as documented, not the
             # validator objects): catches a rule that reads a cache, a reported value or the wrong field
             t_allowed, t_why, t_depth, t_detail = reqtrace.truth_run(root, req, {})
+            # "host is on" is a rule of EVERY action aimed at a node except its start-up (property text; C12): an entry
+            # whose target node exists and is not ON must be masked out, whether or not a validator sits on its route
+            tgt = opts.get("node_name") or opts.get("target_router") or opts.get("target_nodename") or opts.get(
+                "target_firewall_nodename") or opts.get("source_node")
+            if m and tgt is not None and act != "node-startup":
+                nd = g.simulation.network.get_node_by_hostname(tgt)
+                if nd is not None and nd.operating_state.name != "ON":
+                    res.violate(f"mask-overpermits:target-node-not-on:{act}",
+                                f"op#{i}: entry {k} {act} {opts} is unmasked although node {tgt} is {nd.operating_state.name}")
+            if not m and t_why == "keymiss" and str(t_detail) in {str(v) for v in opts.values()}:
+                # masked out because a NAME taken from the action's parameters is not routed: legitimate only if the
+                # component really does not exist (raw inventory of the simulation, as in C05)
+                from .c05 import component_exists
+
+                if component_exists(g.simulation.network, act, opts):
+                    res.violate(f"mask-overrestricts:existing-target-not-routed:{act}",
+                                f"op#{i}: entry {k} {act} {opts} is masked out because {t_detail!r} is not routed at depth "
+                                f"{t_depth}, but that component exists")
             if t_why != "arity":
                 if m and not t_allowed:
                     res.violate(f"mask-overpermits-vs-component-state:{act}:{t_why}:{t_detail if t_why == 'refused' else ''}",
@@ -187,6 +205,22 @@ def masked_gen_case(draw, max_ops=25):
     case = draw(gen_case_strategy(max_ops=max_ops))
     case["spec"]["obs"]["masking"] = True
     case["spec"]["obs"]["flatten"] = False
+    from hypothesis import strategies as st_
+
+    if draw(st_.integers(0, 2)) == 0:
+        # a host DECLARED off is started and given time to boot before the random part: its interfaces, software and
+        # files were attached while it was off and must be addressable (unmasked) once it is on
+        from .. import gen_scenario
+
+        zi = draw(st_.integers(0, len(case["spec"]["zones"]) - 1))
+        hi = draw(st_.integers(0, len(case["spec"]["zones"][zi]) - 1))
+        case["spec"]["zones"][zi][hi]["off"] = True
+        name = f"z{zi}h{hi}"
+        _, meta = gen_scenario.build(case["spec"])
+        idx = [i for i, a in enumerate(meta["actions"]) if a["action"] == "node-startup" and a["options"].get("node_name") == name]
+        if idx:
+            case["ops"] = [["step", idx[0]], ["idle", case["spec"]["zones"][zi][hi]["up"] + 1]] + case["ops"]
+            case["spec"]["max_len"] = max(case["spec"]["max_len"], 12)
     return case
 
 
